@@ -265,3 +265,77 @@ fn _assert_types() {
     is::<Bls12381Sha256>();
     is::<Bls12381Shake256>();
 }
+
+// ------------------------------------------------------------------ decoders (C08 / C09)
+
+#[derive(Clone, Copy, Debug, PartialEq, Eq, PartialOrd, Ord)]
+pub enum Art { Pk, Sk, Sig, Proof, Zkpok, Commitment, BlindFactor, BlindSig }
+impl Art {
+    pub const ALL: [Art; 8] = [Art::Pk, Art::Sk, Art::Sig, Art::Proof, Art::Zkpok, Art::Commitment, Art::BlindFactor, Art::BlindSig];
+    pub fn name(self) -> &'static str {
+        match self { Art::Pk => "PublicKey", Art::Sk => "SecretKey", Art::Sig => "Signature", Art::Proof => "PoKSignature", Art::Zkpok => "ZKPoK", Art::Commitment => "Commitment", Art::BlindFactor => "BlindFactor", Art::BlindSig => "BlindSignature" }
+    }
+    /// decoders whose parameter is a fixed-size array: other lengths never reach the library
+    pub fn fixed_len(self) -> Option<usize> {
+        match self { Art::Sig | Art::BlindSig => Some(80), Art::BlindFactor => Some(32), _ => None }
+    }
+}
+
+/// decode with `from_bytes` and re-encode with `to_bytes`
+pub fn decode_reencode(s: Suite, art: Art, b: &[u8]) -> Result<Bytes, String> {
+    use zkryptium::bbsplus::proof::BBSplusZKPoK;
+    match art {
+        Art::Pk => Ok(BBSplusPublicKey::from_bytes(b).map_err(e2s)?.to_bytes().to_vec()),
+        Art::Sk => Ok(BBSplusSecretKey::from_bytes(b).map_err(e2s)?.to_bytes().to_vec()),
+        Art::Sig => { let a: [u8; 80] = b.try_into().map_err(|_| "boundary".to_string())?; with_suite!(s, CS, Ok(Signature::<BBSplus<CS>>::from_bytes(&a).map_err(e2s)?.to_bytes().to_vec())) }
+        Art::BlindSig => { let a: [u8; 80] = b.try_into().map_err(|_| "boundary".to_string())?; with_suite!(s, CS, Ok(BlindSignature::<BBSplus<CS>>::from_bytes(&a).map_err(e2s)?.to_bytes().to_vec())) }
+        Art::Proof => with_suite!(s, CS, Ok(PoKSignature::<BBSplus<CS>>::from_bytes(b).map_err(e2s)?.to_bytes())),
+        Art::Zkpok => Ok(BBSplusZKPoK::from_bytes(b).map_err(e2s)?.to_bytes()),
+        Art::Commitment => with_suite!(s, CS, Ok(Commitment::<BBSplus<CS>>::from_bytes(b).map_err(e2s)?.to_bytes())),
+        Art::BlindFactor => { let a: [u8; 32] = b.try_into().map_err(|_| "boundary".to_string())?; Ok(BlindFactor::from_bytes(&a).map_err(e2s)?.to_bytes().to_vec()) }
+    }
+}
+
+/// octets -> object -> JSON text
+pub fn to_json(s: Suite, art: Art, b: &[u8]) -> Result<String, String> {
+    use zkryptium::bbsplus::proof::BBSplusZKPoK;
+    match art {
+        Art::Pk => serde_json::to_string(&BBSplusPublicKey::from_bytes(b).map_err(e2s)?).map_err(e2s),
+        Art::Sk => serde_json::to_string(&BBSplusSecretKey::from_bytes(b).map_err(e2s)?).map_err(e2s),
+        Art::Sig => { let a: [u8; 80] = b.try_into().map_err(|_| "boundary".to_string())?; with_suite!(s, CS, serde_json::to_string(&Signature::<BBSplus<CS>>::from_bytes(&a).map_err(e2s)?).map_err(e2s)) }
+        Art::BlindSig => { let a: [u8; 80] = b.try_into().map_err(|_| "boundary".to_string())?; with_suite!(s, CS, serde_json::to_string(&BlindSignature::<BBSplus<CS>>::from_bytes(&a).map_err(e2s)?).map_err(e2s)) }
+        Art::Proof => with_suite!(s, CS, serde_json::to_string(&PoKSignature::<BBSplus<CS>>::from_bytes(b).map_err(e2s)?).map_err(e2s)),
+        Art::Zkpok => serde_json::to_string(&BBSplusZKPoK::from_bytes(b).map_err(e2s)?).map_err(e2s),
+        Art::Commitment => with_suite!(s, CS, serde_json::to_string(&Commitment::<BBSplus<CS>>::from_bytes(b).map_err(e2s)?).map_err(e2s)),
+        Art::BlindFactor => Err("no serde for BlindFactor".into()),
+    }
+}
+
+/// JSON text -> object -> octets
+pub fn from_json(s: Suite, art: Art, j: &str) -> Result<Bytes, String> {
+    use zkryptium::bbsplus::proof::BBSplusZKPoK;
+    match art {
+        Art::Pk => Ok(serde_json::from_str::<BBSplusPublicKey>(j).map_err(e2s)?.to_bytes().to_vec()),
+        Art::Sk => Ok(serde_json::from_str::<BBSplusSecretKey>(j).map_err(e2s)?.to_bytes().to_vec()),
+        Art::Sig => with_suite!(s, CS, Ok(serde_json::from_str::<Signature<BBSplus<CS>>>(j).map_err(e2s)?.to_bytes().to_vec())),
+        Art::BlindSig => with_suite!(s, CS, Ok(serde_json::from_str::<BlindSignature<BBSplus<CS>>>(j).map_err(e2s)?.to_bytes().to_vec())),
+        Art::Proof => with_suite!(s, CS, Ok(serde_json::from_str::<PoKSignature<BBSplus<CS>>>(j).map_err(e2s)?.to_bytes())),
+        Art::Zkpok => Ok(serde_json::from_str::<BBSplusZKPoK>(j).map_err(e2s)?.to_bytes()),
+        Art::Commitment => with_suite!(s, CS, Ok(serde_json::from_str::<Commitment<BBSplus<CS>>>(j).map_err(e2s)?.to_bytes())),
+        Art::BlindFactor => Err("no serde for BlindFactor".into()),
+    }
+}
+
+pub fn pk_coordinates_roundtrip(pk: &[u8]) -> Result<Bytes, String> {
+    let p = BBSplusPublicKey::from_bytes(pk).map_err(e2s)?;
+    let (x, y) = p.to_coordinates();
+    Ok(BBSplusPublicKey::from_coordinates(&x, &y).map_err(e2s)?.to_bytes().to_vec())
+}
+pub fn pk_from_coordinates(x: &[u8; 96], y: &[u8; 96]) -> Result<Bytes, String> {
+    Ok(BBSplusPublicKey::from_coordinates(x, y).map_err(e2s)?.to_bytes().to_vec())
+}
+pub fn pk_to_coordinates(pk: &[u8]) -> Result<(Bytes, Bytes), String> {
+    let p = BBSplusPublicKey::from_bytes(pk).map_err(e2s)?;
+    let (x, y) = p.to_coordinates();
+    Ok((x.to_vec(), y.to_vec()))
+}
